@@ -65,6 +65,12 @@ Clause map — each phrase of the property text → theorems, with the status
        lexer matched exactly the same characters), `keyword_matches_word`, `keyword_recognised` (if), per parse state:
        `keyword_in_state`, `keyword_not_ok_stays_word` (reserved words / keywords not valid in the state).
    [T] keyword sets of the real language (accept sets of `ts_lex_keywords`, read tolerantly from parser.c) vs the model.
+   [J] WHICH tokens the generator makes keywords is part of which token wins (`identify_keywords`); it is not modelled, the
+       model takes the real keyword set as input.  Judged on it: `shadowedKeyword` — no keyword is shadowed by a String
+       keyword that is preferred on a text both match (it could never be returned by the keyword lexer and must stay in the
+       main lexer); and per failed parse `wholeWordRejected` — the lexer returned a token without an action in the state
+       although a token with an action there matches exactly the whole word (reserved words excepted: that rejection is
+       their documented meaning).
 
 DIFFERENCES between the documented order and the generated lexer (written down as the brief asks;
 the correspondence check compares the real lexer with `lexScan`, and counts how often `lexScan`
